@@ -377,6 +377,30 @@ theorem iteration_outcome (m : Mol) (mods : List Modif) (given : List (List (Lis
       · intro ⟨hp, harm⟩
         exact (hsh.gone _ (hsh.removedAll l hl rm hw a0 ha0 harm hp)).1
 
+/-! ## the processor object -/
+
+/-- `processor_stateless`: whatever a `CanonicalizeModifications` instance has processed before, the result of a
+call depends only on the molecule of that call and the modifications of ITS force field at that moment: the
+outcomes of a history of calls on one instance are, call by call, those of `fix_ptm` on each job alone — equal
+to what a fresh instance returns for the job.  (The real class is compared with this on histories of 2-3
+molecules whose force fields have equal names and different modification sets.) -/
+theorem processor_stateless (p : Proc) (js : List Job) :
+    (p.runHistory js).2 = js.map (fun j => fixPtm j.1 j.2.1 j.2.2)
+    ∧ ∀ (pre post : List Job) (j : Job), js = pre ++ j :: post →
+        (p.runHistory js).2[pre.length]? = some ((Proc.mk).runMolecule j).2 := by
+  have h : ∀ (p : Proc) (js : List Job), (p.runHistory js).2 = js.map (fun j => fixPtm j.1 j.2.1 j.2.2) := by
+    intro p js
+    induction js generalizing p with
+    | nil => rfl
+    | cons j js ih =>
+      simp only [Proc.runHistory, List.map_cons]
+      rw [ih]
+      rfl
+  refine ⟨h p js, ?_⟩
+  intro pre post j hjs
+  rw [h, hjs]
+  simp [Proc.runMolecule]
+
 /-! ## non-vacuity and witnesses -/
 
 /-- `exNH` on residue `N(0) – X7(7)`: one flagged atom, one candidate -/
